@@ -6,6 +6,8 @@ package ice
 import (
 	"context"
 	"crypto/tls"
+	"errors"
+	"fmt"
 	"io"
 	"net"
 	"net/netip"
@@ -1377,16 +1379,26 @@ func (a *Agent) createRelayCandidate(ctx context.Context, ep relayEndpoint, ip n
 	}
 
 	if err := a.addCandidate(ctx, candidate, ep.conn); err != nil {
+		// The candidate that owns the TURN client gives it up in close(). Release
+		// the allocation first: freeing it on the server needs that client.
+		if onClose != nil && ep.closeConn != nil {
+			ep.closeConn()
+		}
 		if closeErr := candidate.close(); closeErr != nil {
 			a.log.Warnf("Failed to close candidate: %v", closeErr)
 		}
 		a.log.Warnf("Failed to append to localCandidates and run onCandidateHdlr: %v", err)
 
-		return err
+		return fmt.Errorf("%w: %w", errRelayCandidateNotAdded, err)
 	}
 
 	return nil
 }
+
+// errRelayCandidateNotAdded marks a createRelayCandidate failure after which
+// the candidate (and, for the owning candidate, the allocation) has already
+// been released.
+var errRelayCandidateNotAdded = errors.New("relay candidate not added") //nolint:gochecknoglobals
 
 func (a *Agent) addRelayCandidates(ctx context.Context, ep relayEndpoint) {
 	if ep.conn == nil || ep.address == nil {
@@ -1417,7 +1429,7 @@ func (a *Agent) addRelayCandidates(ctx context.Context, ep relayEndpoint) {
 
 		if err := a.createRelayCandidate(ctx, ep, ip, onClose); err != nil {
 			if idx == 0 {
-				if ep.closeConn != nil {
+				if ep.closeConn != nil && !errors.Is(err, errRelayCandidateNotAdded) {
 					ep.closeConn()
 				}
 
